@@ -10,7 +10,7 @@ import z3
 from pyvc.contract import FunctionContract, Lemma, VC, Req, ForAllInts
 from pyvc.interp import LoopSpec
 from pyvc.sym import And, Or, Not, Implies, If, Eq, compare, smax, smin, is_sym, Sym, lift, as_real_term, as_int_term, INF, PyRaise
-from pyvc.values import SymSeq
+from pyvc.values import SymSeq, Obj
 
 PROPERTY_ID = "C05"
 LEVEL = "proof"
@@ -224,7 +224,215 @@ class PriceIdentity(Lemma):
         return None
 
 
-UNITS = [ComputeLevel(), StatisticExtend(), StatisticAdd(), PriceIdentity()]
+
+class PriceLoop(FunctionContract):
+    """multilevel Engine.price, single process: the adaptive `while` loop under an inductive invariant, for ANY number of
+    passes (the number of levels is enumerated: initial level 1 or 2, maximum level initial + 1; per-level counts are
+    symbolic).  The per-level routine, the statistics container, the stopping criteria and the level processes are
+    replaced by their contracts / ledger events:
+      compute_level_l(level, current, extra)   requires  rows [current, current + extra) exist and rows below current are the
+                                               filled ones (C05 ComputeLevel contract);  effect: filled[level] += extra
+      statistics.extend(sizes)                 capacity[level] := sizes[level]           (C05 StatisticExtend contract)
+      compute_mc_paths / criteria              arbitrary non-negative integer sizes / arbitrary verdict
+    Invariant at the loop head: L <= maximum level; for every level l <= L: N_l, dN_l >= 0, capacity_l = N_l + dN_l and
+    filled_l = N_l = number of samples simulated at level l; a process exists for every level already simulated.
+    At the return inside the loop: the stopping test accepted or L is the maximum level; every level satisfies
+    N*_l - N_l <= N_l / 100; reported N_l = filled_l = capacity_l (no placeholder row is counted, no simulated sample is
+    dropped); no level above the maximum was ever simulated."""
+    prop = "C05"
+    target = EN + "Engine.price"
+    name = "multilevel.Engine.price[adaptive loop]"
+    cases = ((1, 2), (2, 3))
+    max_paths = 6000
+
+    def __init__(self):
+        def pick_L(path, g):
+            if "L_now" not in g:
+                lo, hi = g["L0"], g["Lmax"]
+                g["L_now"] = lo + path.choose(hi - lo + 1)
+                g["first_pass"] = (path.choose(2) == 0)
+            return g["L_now"]
+
+        def ints(path, name, n, nonneg=True):
+            xs = [path.fresh(name, "i") for _ in range(n)]
+            if nonneg:
+                for x in xs:
+                    path.assume(compare(x, 0, ">="))
+            return np.array(xs, dtype=object)
+
+        def h_L(path, cur):
+            return pick_L(path, ctx_g(path))
+
+        def ctx_g(path):
+            return path.ghost
+
+        def h_arr(name, real=False):
+            def f(path, cur):
+                g = path.ghost
+                n = pick_L(path, g) + 1
+                if real:
+                    return np.array([path.fresh(name, "r") for _ in range(n)], dtype=object)
+                return ints(path, name, n)
+            return f
+
+        def h_procs(path, cur):
+            g = path.ghost
+            n = pick_L(path, g) + 1
+            k = 1 if g["first_pass"] else n
+            return [g["mk_process"]() for _ in range(k)]
+
+        def h_ghost(path, g):
+            n = pick_L(path, g) + 1
+            g["cap"] = list(ints(path, "capacity", n))
+            g["filled"] = list(ints(path, "filled", n))
+            g["simulated"] = list(ints(path, "simulated", n))
+            g["levels_run"] = []
+            g["returned_inside"] = False
+
+        def inv(L, g):
+            Lv = L.L
+            if is_sym(Lv):
+                return False
+            n = Lv + 1
+            Nl, dNl = list(np.ravel(L.Nl)), list(np.ravel(L.dNl))
+            if len(Nl) != n or len(dNl) != n or len(np.ravel(L.sum_cost)) != n or len(g["cap"]) < n:
+                return False
+            conds = [Lv <= g["Lmax"], Lv >= g["L0"]]
+            for l in range(n):
+                conds += [compare(Nl[l], 0, ">="), compare(dNl[l], 0, ">="), compare(g["cap"][l], Nl[l] + dNl[l], "=="),
+                          compare(g["filled"][l], Nl[l], "=="), compare(g["simulated"][l], Nl[l], "==")]
+            procs = L.ml_processes
+            all_zero = And(*[compare(x, 0, "==") for x in Nl])
+            conds.append(True if len(procs) == n else (And(len(procs) >= 1, all_zero) if len(procs) < n else False))
+            conds.append(all(lv <= g["Lmax"] for lv in g["levels_run"]))
+            return And(*conds)
+        self.loops = {1: LoopSpec(inv, havoc={"L": h_L, "Nl": h_arr("N"), "dNl": h_arr("dN"), "sum_cost": h_arr("cost", real=True), "Ns": h_arr("Ns"),
+                                               "ml": h_arr("ml", real=True), "vl": h_arr("vl", real=True), "cl": h_arr("cl", real=True),
+                                               "ml_processes": h_procs, "__ghost__": h_ghost},
+                                  extra_modified=("ml_processes",), label="Engine.price#adaptive-loop")}
+
+    def configure(self, interp):
+        from pyvc import ctx
+        G = lambda: ctx.PATH.ghost
+        CP = "rpylib.process.coupling.couplingmarkovchain:CouplingMarkovChain"
+        interp.hooks[EN + "Engine.initialisation"] = lambda it, f, b: None
+        interp.hooks["rpylib.montecarlo.configuration:Configuration.initialisation_seed"] = lambda it, f, b: None
+        interp.hooks[PA + "MCPath.update"] = lambda it, f, b: None
+        interp.hooks["rpylib.process.process:Process.df"] = lambda it, f, b: 1.0
+        for fq in (CP + ".next_level", CP + ".reset_one_simulation_cost", CP + ".pre_computation"):
+            interp.hooks[fq] = lambda it, f, b: None
+
+        def cost(it, f, b):
+            c = ctx.PATH.fresh("unit_cost", "r")
+            ctx.PATH.assume(compare(c, 0, ">="))
+            return c
+        interp.hooks[CP + ".one_simulation_cost"] = cost
+
+        def level(it, f, b):
+            g = G()
+            l, cur, extra = b["level"], b["current_mc_paths"], b["extra_mc_paths"]
+            g["levels_run"].append(l)
+            ok_level = l <= g["Lmax"] and l < len(g["cap"])
+            ctx.PATH.check("Engine.price -> compute_level_l::level-within-the-configured-maximum", ok_level)
+            if not ok_level:
+                return None
+            ctx.PATH.check("Engine.price -> compute_level_l::requires:rows-exist-and-earlier-rows-are-the-filled-ones",
+                           And(compare(extra, 0, ">="), compare(cur, g["filled"][l], "=="), compare(cur + extra, g["cap"][l], "<=")))
+            g["filled"][l] = g["filled"][l] + extra
+            g["simulated"][l] = g["simulated"][l] + extra
+        interp.hooks[EN + "Engine.compute_level_l"] = level
+
+        def set_results(it, f, b):
+            g = G()
+            Nl = list(np.ravel(b["Nl"]))
+            g["reported"] = Nl
+            n = len(Nl)
+            mk = lambda nm: np.array([ctx.PATH.fresh(nm, "r") for _ in range(n)], dtype=object)
+            res = Obj(it.get_class(ST + "MLMCResults"))
+            res.fields.update(ml=mk("ml"), vl=mk("vl"), cl=mk("cl"), Nl=np.array(Nl, dtype=object))
+            b["self"].fields["mlmc_results"] = res
+        interp.hooks[ST + "MLMCStatistics.set_mlmc_results"] = set_results
+
+        def extend(it, f, b):
+            g = G()
+            sizes = list(np.ravel(b["mc_paths"]))
+            for l, sz in enumerate(sizes):
+                if l < len(g["cap"]):
+                    # the statistics container never shrinks (Statistic.extend contract): the new capacity is max(old, requested)
+                    g["cap"][l] = smax(g["cap"][l], sz)
+                else:
+                    g["cap"].append(sz)
+                    g["filled"].append(0)
+                    g["simulated"].append(0)
+        interp.hooks[ST + "MLMCStatistics.extend"] = extend
+
+        def mc_paths(it, *a, **k):
+            g = G()
+            vl = a[1] if len(a) > 1 else k.get("vl")
+            n = len(np.ravel(vl))
+            xs = []
+            for _ in range(n):
+                x = ctx.PATH.fresh("Ns", "i")
+                ctx.PATH.assume(compare(x, 0, ">="))
+                xs.append(x)
+            g["last_Ns"] = xs
+            return np.array(xs, dtype=object)
+
+        def criteria(it, *a, **k):
+            g = G()
+            v = ctx.PATH.fresh("accepted", "b")
+            g["accepted"] = v
+            return v
+        self._mc_paths, self._criteria = interp.lib.Model(mc_paths, "compute_mc_paths"), interp.lib.Model(criteria, "criteria")
+
+    def setup(self, vc, case):
+        L0, Lmax = case
+        g = vc.ghost
+        N0 = vc.int("initial_mc_paths")
+        vc.assume(N0 >= 1)
+        CP = "rpylib.process.coupling.couplingmarkovchain:CouplingMarkovChain"
+        g["mk_process"] = lambda: vc.obj(CP, fine_process=vc.obj("rpylib.process.markovchain.markovchain:MarkovChainProcess", process_representation=None))
+        crit = vc.obj("rpylib.montecarlo.multilevel.criteria:ConvergenceCriteria", compute_mc_paths=self._mc_paths, criteria=self._criteria)
+        cr = vc.obj("rpylib.montecarlo.configuration:ConvergenceRates", alpha=1.0, beta=1.5, gamma=1.0)
+        cfg = vc.obj("rpylib.montecarlo.configuration:ConfigurationMultiLevel", nb_of_processes=1, seed=None, initial_mc_paths=N0, initial_level=L0, maximum_level=Lmax,
+                     convergence_rates=cr, convergence_criteria=crit)
+        stats = vc.obj(ST + "MLMCStatistics")
+        eng = vc.obj(EN + "Engine", configuration=cfg, coupling_process=g["mk_process"](), path_managers=[vc.obj(PA + "MLMCPath")], statistics=stats)
+        # state established by Engine.initialisation (create_mlmc_statistics: initial_mc_paths rows for every initial level)
+        g.update(L0=L0, Lmax=Lmax, cap=[N0] * (L0 + 1), filled=[0] * (L0 + 1), simulated=[0] * (L0 + 1), levels_run=[], N0=N0, stats=stats)
+        return dict(self=eng, product=vc.obj("rpylib.product.product:Product", maturity=vc.real("maturity")), rmse=vc.real("rmse"))
+
+    def ensures(self, result, **a):
+        from pyvc import ctx
+        g = ctx.PATH.ghost
+        out = {"returns-the-statistics": result is g["stats"]}
+        rep = g.get("reported")
+        if rep is None:
+            out["results-reported-before-returning"] = False
+            return out
+        n = len(rep)
+        out["reported-N-is-the-number-of-filled-rows-and-of-simulated-samples"] = And(*[And(compare(rep[l], g["filled"][l], "=="), compare(rep[l], g["simulated"][l], "==")) for l in range(n)]) if n <= len(g["filled"]) else False
+        out["never-simulates-a-level-above-the-maximum"] = all(l <= g["Lmax"] for l in g["levels_run"]) and n - 1 <= g["Lmax"]
+        ns, acc = g.get("last_Ns"), g.get("accepted")
+        if ns is not None and acc is not None and len(ns) == n:
+            need = And(*[compare(100 * (ns[l] - rep[l]), rep[l], "<=") for l in range(n)])
+            some_need = Or(*[compare(ns[l], rep[l], ">") for l in range(n)])
+            # the "initial number of paths too low" exit (no level asks for a sample) is C06's known finding: not this clause
+            out["returned-with-the-stopping-test-accepted-or-at-the-maximum-level"] = Or(acc, n - 1 == g["Lmax"], Not(some_need)) if is_sym(acc) else (bool(acc) or n - 1 == g["Lmax"])
+            out["every-level-has-its-optimal-size-within-the-1-percent-rule"] = need
+            out["no-placeholder-row-at-return"] = Implies(Or(acc, n - 1 == g["Lmax"]) if is_sym(acc) else True, And(*[compare(g["cap"][l], rep[l], "==") for l in range(n)]))
+        return out
+
+    def replay(self, model, clause, case):
+        # native oracles for the adaptive loop: the scripted-history batteries of C05 (sample provenance) and C06 (exits, 1 % rule)
+        from contracts import c06
+        v = list(ScriptedEngine().run("quick", 0)["violations"]) + [x for x in c06.Trajectories().run("quick", 0)["violations"]]
+        known = ("returns-only-on-acceptance",)       # C06's recorded finding, not a confirmation of anything else
+        v = [x for x in v if not any(k in x["obligation"] for k in known)]
+        return (bool(v), {"scripted_history_violations": [{"obligation": x["obligation"], "witness": x.get("witness")} for x in v][:3]})
+
+
+UNITS = [ComputeLevel(), StatisticExtend(), StatisticAdd(), PriceIdentity(), PriceLoop()]
 ASSUMPTIONS = ["A1: floats are mathematical reals", "each call of the simulator returns a fresh sample; its payoffs are functions of the sample (C17)",
                "the (n,1,2) payoff array of a level is represented by its fine and coarse columns"]
 TRUSTED_BASE = ["z3 5.1 (LRA + arrays)", "pyvc interpreter + numpy models"]
